@@ -1,19 +1,30 @@
-(** C20 — lemmas about the difficulty model. *)
+(** C20 — top of the proof development: refutation witnesses.
+
+    [ProofsArith]      powers of 256, byte length, bit operations as arithmetic
+    [ProofsCodec]      decode/encode in arithmetic form
+    [ProofsRoundtrip]  round trip, precision, canonical form
+    [ProofsWork]       work antitone, truncation monotone *)
 From Coq Require Import ZArith Lia Bool.
-From C33 Require Import C20.Model.
+From C33 Require Import C20.Model C20.Spec.
+From C33 Require Export C20.ProofsArith C20.ProofsCodec C20.ProofsRoundtrip C20.ProofsWork.
 Open Scope Z_scope.
 
-Lemma work_antitone_targets : forall d1 d2, 0 < d1 <= d2 ->
-  2^256 / (d2 + 1) <= 2^256 / (d1 + 1).
+(** Without the format guard: a 255-byte integer with the top bit set needs exponent
+    256, which [uint32(exponent<<24)] truncates to 0 — everything is lost. *)
+Lemma precision_unguarded_refuted : ~ C20_precision_unguarded_full.
 Proof.
-  intros d1 d2 H. apply Z.div_le_compat_l; [apply Z.pow_nonneg|]; lia.
+  intros H. specialize (H (2 ^ 2039)). cbv zeta in H.
+  assert (Hn : 0 <= 2 ^ 2039) by (apply Z.pow_nonneg; lia).
+  destruct (H Hn) as [_ Hlt]. vm_compute in Hlt. discriminate.
 Qed.
 
-Lemma calc_work_antitone : forall c1 c2,
-  0 < compact_to_big c1 <= compact_to_big c2 -> calc_work c2 <= calc_work c1.
+(** For negative integers [big.Int.Rsh] rounds the magnitude up; when the three
+    leading bytes are ff ff ff and a lower byte is non-zero the mantissa becomes
+    0x1000000, spills into the exponent byte and the value decodes to 0. *)
+Lemma precision_negative_refuted : ~ C20_precision_negative_full.
 Proof.
-  intros c1 c2 H. unfold calc_work.
-  destruct (Z.leb_spec (compact_to_big c1) 0); [lia|].
-  destruct (Z.leb_spec (compact_to_big c2) 0); [lia|].
-  apply work_antitone_targets; lia.
+  intros H. specialize (H (- 0xffffff01)). cbv zeta in H.
+  assert (Hlt : Z.abs (- 0xffffff01 - compact_to_big (big_to_compact (- 0xffffff01)))
+                < 256 ^ lost_bytes (- - 0xffffff01)) by (apply H; [lia|reflexivity]).
+  vm_compute in Hlt. discriminate.
 Qed.
